@@ -388,7 +388,9 @@ Qed.
 Lemma fx_events_wf fx : nl_wf (fx_details fx) = true -> evs_wf (fx_events fx).
 Proof.
   intros H. apply nl_dict_wf in H. unfold fx_events, evs_wf, nl_wf in *. rewrite forallb_forall in H.
-  apply Forall_forall. intros e He. apply in_map_iff in He as (x & <- & Hx). exact (H x Hx).
+  apply Forall_forall. intros e He. apply in_map_iff in He as (x & <- & Hx). apply (H x).
+  unfold fx_good in Hx. destruct (fx_bad fx) as [[k g]|]; [|exact Hx].
+  rewrite <- (firstn_skipn k (nl_dict (fx_details fx))). apply in_or_app. left. exact Hx.
 Qed.
 
 Definition acts_wf (l : list act) : bool := forallb wf_names_act l.
@@ -402,7 +404,8 @@ Proof.
   - repeat constructor. exact H.
   - apply evs_wf_app; [now apply mm_events_wf | repeat constructor].
   - now apply mm_events_wf.
-  - destruct (fx_fail fx); [now apply fx_events_wf | constructor].
+  - destruct (fx_fail fx); [|constructor]. apply evs_wf_app; [now apply fx_events_wf|].
+    destruct (fx_eval_raise fx); repeat constructor.
   - destruct p as [e|]; [destruct (isinstance e CFail)|]; repeat constructor.
 Qed.
 Lemma executed_incl l : incl (executed l) l.
@@ -448,7 +451,7 @@ Proof.
   destruct e as [t b | a | fx | fx]; cbn [entry_wf entry_events]; intros H.
   - apply evs_wf_app; [now apply acts_events_wf | apply exc_events_wf].
   - constructor.
-  - now apply fx_events_wf.
+  - apply evs_wf_app; [now apply fx_events_wf | apply exc_events_wf].
   - apply exc_events_wf.
 Qed.
 
